@@ -3,6 +3,10 @@ package main
 // C18 — printf emits exactly the format, each directive replaced and padded to
 // its width; on any error nothing of that printf is written, however much the
 // directives before the fault rendered (printf-atomic-after-output).
+// printf-directive-bytes: only the bytes s f v % end a directive -- every other byte value, multi-byte
+// characters and invalid UTF-8 after the % (and after a width) are the runtime error.
+// printf-interleaving: the text goes out there and then, in order with every other writer (print,
+// bare print, functions that print), also when it does not end a line.
 
 import (
 	"fmt"
@@ -781,5 +785,443 @@ func init() {
 					}, NonTrivial: func(i Resp) bool { return i["class"] == "ok" || i["class"] == "runtime" }})
 			}
 		},
+	})
+}
+
+// ---------------------------------------------------------------- directive bytes
+
+// c18ByteArgs: argument lists that would satisfy a directive byte mistaken for s, f or v
+func c18ByteArgs() [][]c18Arg {
+	arr := c18Arg{expr: "[1]", kind: 'o', render: "[1]", known: true}
+	return [][]c18Arg{{c18Num("3", 3)}, {c18Str("ab")}, {arr}, nil, {c18Str("ab"), c18Num("3", 3)}}
+}
+
+// c18DirectiveBytes: the byte that ends a directive is one of s f v % and nothing else -- not a
+// byte that merely looks like one of them under some mapping (the low seven bits, the lower-case
+// form, the first byte of a multi-byte character, a control byte). Formats carry raw bytes
+// (program texts travel as hex), so every byte value stands directly after the % and after a
+// width of every form.
+func c18DirectiveBytes(r *rand.Rand, tier string, emit func(Case)) {
+	argLists := c18ByteArgs()
+	widths := []string{"", "6", "-6", "06", "-06", "1", "0", "00", "12"}
+	e := func(format string, args []c18Arg, row, col string) {
+		if strings.ContainsRune(format, '"') && strings.ContainsRune(format, '\'') {
+			return
+		}
+		prog, files := c18Program(format, args, false)
+		emit(Case{Req: RunReq(prog, nil, files, false), Fields: []string{"class", "out"},
+			Meta:   metaProg(prog, "format", fmt.Sprintf("%q", format), "row", row, "col", col),
+			Oracle: c18Oracle(format, args), NonTrivial: func(i Resp) bool { return i["class"] == "ok" || i["class"] == "runtime" }})
+	}
+	// every byte value as the directive byte x every width form x argument lists (quick: two of the five lists in rotation)
+	k := r.Intn(5)
+	for b := 0; b < 256; b++ {
+		row := "ascii"
+		switch {
+		case b >= 0x80:
+			row = fmt.Sprintf("high %x0-%xf", b>>4, b>>4)
+		case b < 0x20 || b == 0x7f:
+			row = "control"
+		}
+		for _, w := range widths {
+			for ai, args := range argLists {
+				if tier != "thorough" && b < 0x80 && (ai+k)%5 > 1 {
+					continue
+				}
+				e("<%"+w+string([]byte{byte(b)})+">", args, row, "width "+w)
+			}
+			k++
+		}
+		// at the very end of the format, and followed by an ordinary directive
+		e("<%"+string([]byte{byte(b)}), argLists[b%3], row, "last byte")
+		e("%"+string([]byte{byte(b)})+"|%v|", argLists[4], row, "then %v")
+	}
+	// multi-byte characters (valid UTF-8) as the directive: lead bytes whose low bits look like
+	// s f v % (e6 = U+6xxx, f3 = planes 12-15, e5/c5 continuation a5 b3 …), and others
+	chars := []string{"水", "怀", "濿", "水", "\U000f3000", "\U000c0000", "\U000fffff", "é", "ų", "¥", "ś", "日", "г", "٥",
+		"ｓ", "ｆ", "ｖ", "％", "с", "ſ", "‰", "﹪", "\U0001d42c", "\U0001f600", "\u200b", "\ufeff", "\u0080", "߿", "ࠀ", "￿", "\U00010000", "\U0010ffff"}
+	for _, c := range chars {
+		for _, w := range widths {
+			for _, args := range argLists {
+				e("<%"+w+c+">", args, "multi-byte character", "width "+w)
+			}
+		}
+		e("<%"+c, argLists[0], "multi-byte character", "last byte")
+		e("<%s%"+c+"%f>", argLists[4], "multi-byte character", "between directives")
+	}
+	// invalid UTF-8 after the %: truncated and overlong sequences, lone continuation bytes, surrogates
+	for _, c := range []string{"\xe6", "\xe6\xb0", "\xf3\xb3", "\xf3\xb3\x80", "\xc0\xa5", "\xc1\xb3", "\xe0\x80\xa5", "\xed\xa0\x80", "\xf4\x90\x80\x80", "\xf6\xf6", "\xa5\xa5", "\xf3s", "\xe6f", "\xf6v", "\xa5%", "\xff", "\xfe\xff"} {
+		for _, w := range []string{"", "6", "-06"} {
+			for _, args := range argLists {
+				e("<%"+w+c+">", args, "invalid UTF-8", "width "+w)
+			}
+		}
+	}
+	// digits only / sign only: a width with nothing after it, or with something that is no directive byte
+	for _, w := range []string{"0", "5", "05", "-5", "-05", "-", "--", "-0", "00", "123", "65536", "65537", "0000000000000000000005", "9", "-9"} {
+		for _, tail := range []string{"", " ", ">", "\n", "\x00", "\xe6", "\xf3", "水", ".", "+", "-", "-s", " s", ".2f", "$s", "ls", "hs"} {
+			for _, args := range argLists[:tierN(tier, 3, 5)] {
+				e("<%"+w+tail, args, "digits only", "tail "+fmt.Sprintf("%q", tail))
+			}
+		}
+	}
+	// random formats over an alphabet rich in such bytes
+	alpha := []string{"%", "%", "%", "s", "f", "v", "5", "-", "0", "12", "<", ">", "|", "\xe6", "\xf3", "\xf6", "\xa5", "\xb0\xb4", "\xd3", "\xc6", "\xd6", "\x85", "S", "F", "V", "\x13", "\x06", "\x16", "\x05", "水", "é", " ", "\n", "\x00", "\x7f", "\xff"}
+	pool := c18ArgPool()
+	n := tierN(tier, 1500, 30000)
+	for i := 0; i < n; i++ {
+		var sb strings.Builder
+		for k := 2 + r.Intn(7); k > 0; k-- {
+			sb.WriteString(pick(r, alpha))
+		}
+		var args []c18Arg
+		for k := r.Intn(4); k > 0; k-- {
+			a := pick(r, pool)
+			if a.bad {
+				continue
+			}
+			args = append(args, a)
+		}
+		e(sb.String(), args, "random", "")
+	}
+}
+
+// ---------------------------------------------------------------- order with other writers
+
+type c18Rec struct{ json, render string }
+
+var c18Recs = []c18Rec{{"10", "10"}, {"20", "20"}, {`"x"`, "x"}, {"[1, 2]", "[1, 2]"}, {`{"k": 1}`, `{"k": 1}`}, {"null", "null"}, {"true", "true"}, {`"two words"`, "two words"},
+	{"2.5", "2.5"}, {`""`, ""}, {"[]", "[]"}, {`"é"`, "é"}}
+
+// c18Stmt is one statement of the interleaving grammar: its text and what it writes for the
+// record with rendering rec at index idx (rec is unused outside rules); stop: "" | next | exit | error
+type c18Stmt struct {
+	text  string
+	out   func(rec string, idx int) string
+	rule  bool // needs a current record
+	stop  string
+	quiet bool // writes nothing that ends in a newline
+}
+
+func c18PadTo(s string, w int) string {
+	if w > 0 && len(s) < w {
+		return strings.Repeat(" ", w-len(s)) + s
+	}
+	if w < 0 && len(s) < -w {
+		return s + strings.Repeat(" ", -w-len(s))
+	}
+	return s
+}
+
+const c18WriterFuncs = "function say(x) { print x }\n" +
+	"function sayf(x) { printf('%v;', x) }\n" +
+	"function bare() { print }\n" +
+	"function both(x) { printf('(%v', x); print ')' }\n" +
+	"function deep(x) { printf('{'); both(x); printf('}'); return x }\n" +
+	"function long(n) { s = 'ab'\n while (s.length() < n) { s = s + s }\n return s }\n"
+
+func c18Stmts() []c18Stmt {
+	k := func(s string) func(string, int) string { return func(string, int) string { return s } }
+	long := func(n int) string {
+		s := "ab"
+		for len(s) < n {
+			s += s
+		}
+		return s
+	}
+	return []c18Stmt{
+		// printf without a trailing newline
+		{text: "printf('lit ')", out: k("lit "), quiet: true},
+		{text: "printf('a'); printf('b'); printf('c')", out: k("abc"), quiet: true},
+		{text: "printf('#%v = ', $index)", out: func(_ string, i int) string { return fmt.Sprintf("#%d = ", i) }, rule: true, quiet: true},
+		{text: "printf('%8v|', $)", out: func(rc string, _ int) string { return c18PadTo(rc, 8) + "|" }, rule: true, quiet: true},
+		{text: "printf('%-4v|%s', $, 'é')", out: func(rc string, _ int) string { return c18PadTo(rc, -4) + "|é" }, rule: true, quiet: true},
+		{text: "printf('%%')", out: k("%"), quiet: true},
+		{text: "printf('')", out: k(""), quiet: true},
+		{text: "printf('mid\\nline')", out: k("mid\nline"), quiet: true},
+		{text: "printf('%v', long(4096))", out: k(long(4096)), quiet: true},
+		{text: "printf('%v', long(3000))", out: k(long(3000)), quiet: true},
+		{text: "printf('%5000s', 'w')", out: k(c18PadTo("w", 5000)), quiet: true},
+		{text: "sayf('t')", out: k("t;"), quiet: true},
+		{text: "sayf($index)", out: func(_ string, i int) string { return fmt.Sprintf("%d;", i) }, rule: true, quiet: true},
+		// printf that ends its line
+		{text: "printf('%s\\n', 'nl')", out: k("nl\n")},
+		{text: "printf('\\n')", out: k("\n")},
+		// the other writers
+		{text: "print", out: func(rc string, _ int) string { return rc + "\n" }, rule: true},
+		{text: "print $", out: func(rc string, _ int) string { return rc + "\n" }, rule: true},
+		{text: "print 'p', $index", out: func(_ string, i int) string { return fmt.Sprintf("p %d\n", i) }, rule: true},
+		{text: "print 'word'", out: k("word\n")},
+		{text: "print ''", out: k("\n")},
+		{text: "print 1, 'two', [3]", out: k("1 two [3]\n")},
+		{text: "say('s')", out: k("s\n")},
+		{text: "bare()", out: func(rc string, _ int) string { return rc + "\n" }, rule: true},
+		{text: "both(7)", out: k("(7)\n")},
+		{text: "print deep('d'), deep(2)", out: k("{(d)\n}{(2)\n}d 2\n")},
+		{text: "printf('[%v|%v]', deep(1), 'z')", out: k("{(1)\n}[1|z]")},
+		{text: "for (q in [1, 2]) { printf('%v,', q) }", out: k("1,2,"), quiet: true},
+		{text: "for (q in [1, 2]) { printf('%v:', q); print q }", out: k("1:1\n2:2\n")},
+		{text: "if ($index % 2 == 0) { printf('even ') } else { print 'odd' }", out: func(_ string, i int) string {
+			if i%2 == 0 {
+				return "even "
+			}
+			return "odd\n"
+		}, rule: true},
+		// ends of the record / the run right after an unfinished line
+		{text: "next", out: k(""), rule: true, stop: "next"},
+		{text: "exit", out: k(""), stop: "exit"},
+		{text: "printf('%d', 1)", out: k(""), stop: "error"},
+		{text: "printf('%s|', 5)", out: k(""), stop: "error"},
+		{text: "un.k.j()", out: k(""), stop: "error"},
+	}
+}
+
+// c18Interleave builds one program and the exact stdout it must produce
+func c18Interleave(r *rand.Rand, stmts []c18Stmt) (prog string, doc string, want string, wantClass string, focus bool) {
+	nrec := 1 + r.Intn(5)
+	recs := make([]c18Rec, nrec)
+	js := make([]string, nrec)
+	for i := range recs {
+		recs[i] = pick(r, c18Recs)
+		js[i] = recs[i].json
+	}
+	doc = "[" + strings.Join(js, ", ") + "]"
+	type rule struct {
+		head  string
+		cond  func(i int) bool
+		stmts []c18Stmt
+	}
+	var body func(inRule bool, n int) []c18Stmt
+	body = func(inRule bool, n int) []c18Stmt {
+		var ss []c18Stmt
+		for len(ss) < n {
+			s := pick(r, stmts)
+			if s.rule && !inRule {
+				continue
+			}
+			if s.stop != "" && !chance(r, 0.12) {
+				continue
+			}
+			if strings.Contains(s.text, "long(") || strings.Contains(s.text, "5000") {
+				if !chance(r, 0.15) {
+					continue
+				}
+			}
+			// the pair the property is about: an unfinished line directly followed by another writer
+			if len(ss) > 0 && ss[len(ss)-1].quiet && s.quiet && chance(r, 0.5) {
+				continue
+			}
+			ss = append(ss, s)
+		}
+		return ss
+	}
+	var begin, end []c18Stmt
+	if chance(r, 0.5) {
+		begin = body(false, 1+r.Intn(3))
+	}
+	if chance(r, 0.6) {
+		end = body(false, 1+r.Intn(3))
+	}
+	var rules []rule
+	for k := 1 + r.Intn(3); k > 0; k-- {
+		ru := rule{head: "", cond: func(int) bool { return true }}
+		switch r.Intn(5) {
+		case 0:
+			m := r.Intn(2)
+			ru.head = fmt.Sprintf("$index %% 2 == %d ", m)
+			ru.cond = func(i int) bool { return i%2 == m }
+		case 1:
+			m := r.Intn(nrec)
+			ru.head = fmt.Sprintf("$index >= %d ", m)
+			ru.cond = func(i int) bool { return i >= m }
+		}
+		ru.stmts = body(true, 1+r.Intn(4))
+		rules = append(rules, ru)
+	}
+	var sb strings.Builder
+	sb.WriteString(c18WriterFuncs)
+	block := func(head string, ss []c18Stmt) {
+		sb.WriteString(head + "{\n")
+		for _, s := range ss {
+			sb.WriteString("  " + s.text + "\n")
+		}
+		sb.WriteString("}\n")
+	}
+	if begin != nil {
+		block("BEGIN ", begin)
+	}
+	for _, ru := range rules {
+		block(ru.head, ru.stmts)
+	}
+	if end != nil {
+		block("END ", end)
+	}
+	prog = sb.String()
+	// the reference run
+	var out strings.Builder
+	wantClass = "ok"
+	prevQuiet := false
+	run := func(ss []c18Stmt, rec string, idx int) string {
+		for _, s := range ss {
+			if s.stop != "" {
+				if prevQuiet {
+					focus = true
+				}
+				return s.stop
+			}
+			if prevQuiet && !s.quiet {
+				focus = true // another writer right after an unfinished line
+			}
+			o := s.out(rec, idx)
+			out.WriteString(o)
+			if o != "" {
+				prevQuiet = !strings.HasSuffix(o, "\n")
+			}
+		}
+		return ""
+	}
+	stopped := run(begin, "", 0)
+	if stopped == "" {
+	records:
+		for i, rc := range recs {
+			for _, ru := range rules {
+				if !ru.cond(i) {
+					continue
+				}
+				if stopped = run(ru.stmts, rc.render, i); stopped == "next" {
+					stopped = ""
+					break
+				} else if stopped != "" {
+					break records
+				}
+			}
+		}
+	}
+	if stopped == "" {
+		stopped = run(end, "", 0)
+	}
+	if stopped == "error" {
+		wantClass = "runtime"
+	}
+	return prog, doc, out.String(), wantClass, focus
+}
+
+func c18GenInterleave(r *rand.Rand, tier string, emit func(Case)) {
+	stmts := c18Stmts()
+	one := func(prog, doc, want, wantClass, row string) {
+		emit(Case{Req: RunReq(prog, nil, []File{{Name: "in.json", Data: []byte(doc)}}, false), Fields: []string{"class", "out"},
+			Meta: metaProg(prog, "input", doc, "row", row),
+			Oracle: func(i Resp) string {
+				if i["class"] != wantClass {
+					return fmt.Sprintf("class %s expected, got %s %s", wantClass, i["class"], i["msg"])
+				}
+				if got := string(i.Bytes("out")); got != want {
+					return fmt.Sprintf("stdout is not the writes in program order: got %q, statement by statement it must be %q", c07Short(got), c07Short(want))
+				}
+				return ""
+			}, NonTrivial: func(i Resp) bool { return i["class"] == "ok" || i["class"] == "runtime" }})
+	}
+	// systematic: every unfinished-line printf x every following statement, in a rule over three
+	// records, in BEGIN and in END
+	for _, a := range stmts {
+		if !a.quiet {
+			continue
+		}
+		for _, b := range stmts {
+			for _, place := range []string{"rule", "BEGIN", "END", "function"} {
+				if place != "rule" && (a.rule || b.rule) {
+					continue
+				}
+				if tier != "thorough" && place != "rule" && (strings.Contains(a.text, "long(") || strings.Contains(a.text, "5000")) {
+					continue
+				}
+				recs := []c18Rec{c18Recs[0], c18Recs[2], c18Recs[3]}
+				doc := "[10, \"x\", [1, 2]]"
+				var prog string
+				var want strings.Builder
+				wantClass := "ok"
+				stopped := false
+				emitStmts := func(rc string, idx int) bool { // false: the run is over
+					want.WriteString(a.out(rc, idx))
+					switch b.stop {
+					case "error":
+						wantClass = "runtime"
+						return false
+					case "exit":
+						return false
+					case "next":
+						return true
+					}
+					want.WriteString(b.out(rc, idx))
+					want.WriteString("tail\n")
+					return true
+				}
+				body := "{\n  " + a.text + "\n  " + b.text + "\n  print 'tail'\n}\n"
+				switch place {
+				case "rule":
+					prog = c18WriterFuncs + "BEGIN { print 'begin' }\n" + body + "END { print 'end' }\n"
+					want.WriteString("begin\n")
+					for i, rc := range recs {
+						if !emitStmts(rc.render, i) {
+							stopped = true
+							break
+						}
+					}
+					if !stopped {
+						want.WriteString("end\n")
+					}
+				case "BEGIN":
+					prog = c18WriterFuncs + "BEGIN " + body + "{ print }\nEND { print 'end' }\n"
+					if emitStmts("", 0) {
+						want.WriteString("10\nx\n[1, 2]\nend\n")
+					}
+				case "END":
+					prog = c18WriterFuncs + "{ printf('%v,', $) }\nEND " + body
+					want.WriteString("10,x,[1, 2],")
+					emitStmts("", 0)
+				case "function":
+					if b.stop == "next" {
+						continue
+					}
+					prog = c18WriterFuncs + "function w() " + body + "{ printf('%v>', $index); w(); print 'back' }\n"
+					for i := range recs {
+						want.WriteString(fmt.Sprintf("%d>", i))
+						if !emitStmts("", 0) {
+							stopped = true
+							break
+						}
+						want.WriteString("back\n")
+					}
+				}
+				one(prog, doc, want.String(), wantClass, "pair in "+place)
+			}
+		}
+	}
+	// random programs; those in which another writer directly follows an unfinished line are kept
+	// in full, the others thinned out
+	n := tierN(tier, 2500, 40000)
+	for i := 0; i < n; i++ {
+		prog, doc, want, wantClass, focus := c18Interleave(r, stmts)
+		if !focus && !chance(r, 0.3) {
+			continue
+		}
+		row := "random"
+		if focus {
+			row = "random, writer after an unfinished line"
+		}
+		one(prog, doc, want, wantClass, row)
+	}
+}
+
+func init() {
+	register(Family{
+		Name: "printf-directive-bytes", Prop: "C18",
+		Rule: "raw bytes in the format (program texts travel as hex): every byte value 0x00-0xff as the directive byte directly after % and after a width of nine forms (none, 6, -6, 06, -06, 1, 0, 00, 12), as the last byte of the format and before an ordinary directive, with argument lists that would satisfy a byte mistaken for s / f / v (number, string, array, none, string + number); 32 multi-byte characters as directives (U+6xxx and planes 12-15 whose lead bytes e6 / f3 equal f / s in the low seven bits, full-width and Cyrillic look-alikes of s f v %, combining marks, BOM, the ends of every UTF-8 length class), truncated / overlong / surrogate / lone-continuation byte sequences, widths with nothing or a non-directive after them (digits only, sign only, 22 digits), random formats over an alphabet of such bytes; oracle: the reference formatter (only s f v % end a directive: anything else is a runtime error and nothing of the call is written)",
+		Gen:  c18DirectiveBytes,
+	})
+	register(Family{
+		Name: "printf-interleaving", Prop: "C18",
+		Rule: "printf that leaves a line unfinished (literal text, %v of the record / index with widths, %%, empty, text with an inner newline, 3000 / 4096 / 5000 bytes, inside a called function, in a loop) directly followed by every other writer -- bare print, print $, print with several arguments, print '', printf ending in a newline, functions that print / printf / bare-print / nest both, a print list and a printf argument list that call printing functions, loops and conditionals -- or by next, exit and three runtime errors; every such pair in a rule over three records (between BEGIN and END output), in BEGIN, in END and in a function body; plus random programs (BEGIN, 1-3 rules with and without patterns over 1-5 records, END); oracle: stdout is exactly the concatenation of the statements' outputs in execution order (closed form), class as predicted; model comparison on class,out",
+		Gen:  c18GenInterleave,
 	})
 }
